@@ -65,6 +65,7 @@ type Contract struct {
 	Ghosts     []string            // ghost variables (int) bound to fresh symbols
 	CallAsserts map[string][]Clause // "<callee short name>#<ordinal>" -> assertions checked before that call
 	ParamNames  []string            // names the contract uses for the parameters (positional)
+	LocalDefs   map[string][]string // SSA value descriptor -> names the contract uses for it
 }
 
 // Registry: a package-level map filled by constant Register* calls in init.
@@ -363,6 +364,23 @@ func (cs *ContractSet) loadFile(path string) error {
 			// (receiver first): bound positionally, so renaming a parameter in the
 			// source does not invalidate the contract
 			cur.ParamNames = strings.Fields(rest)
+		case "local":
+			// local <name> = <descriptor> | <descriptor> ...: the SSA values the name
+			// stood for when the contract was written (tools/add_locals.py); bound in
+			// addition to the current source names, so renaming a local is harmless
+			nm, ds, ok := strings.Cut(rest, "=")
+			if !ok {
+				return fmt.Errorf("%s: local <name> = <descriptor> | ...", loc)
+			}
+			nm = strings.TrimSpace(nm)
+			if cur.LocalDefs == nil {
+				cur.LocalDefs = map[string][]string{}
+			}
+			for _, d := range strings.Split(ds, "|") {
+				if d = strings.TrimSpace(d); d != "" {
+					cur.LocalDefs[d] = append(cur.LocalDefs[d], nm)
+				}
+			}
 		case "ghostset":
 			cur.GhostSets = append(cur.GhostSets, mk())
 		case "ghostpost":
